@@ -140,7 +140,9 @@ def wsgi_sequences(r):
     r.sample({"wsgi_sequence": [MENU[0], MENU[2]]})
 
 
-CHARSET_EVENTS = [{"data": "é"}, {"event": "名", "data": "中文\n第二行"}, {"id": "ü1", "data": "x"}, {"data": "plain"}, {"event": "a+b", "id": "1~2", "data": "1+1=2 ~ a\\b\n+x-"}]
+CHARSET_EVENTS = [{"data": "é"}, {"event": "名", "data": "中文\n第二行"}, {"id": "ü1", "data": "x"}, {"data": "plain"}, {"event": "a+b", "id": "1~2", "data": "1+1=2 ~ a\\b\n+x-"},
+                  # text that is not in a Unicode normal form (a decomposed letter, the ohm and Angstrom signs, a compatibility ideograph): the code points yielded are the code points sent
+                  {"data": "e\u0301 \u2126 \u212b", "id": "A\u030a"}, {"event": "\uf9f1", "data": "\ufb01 \u1e9b\u0323"}]
 
 
 def charset_responses(r):
@@ -149,7 +151,7 @@ def charset_responses(r):
     import re as _re
     for iface in ("wsgi", "asgi"):
         mod = __import__("baize.wsgi" if iface == "wsgi" else "baize.asgi", fromlist=["SendEventResponse"])
-        for charset in (None, "utf-8", "gbk", "latin-1", "big5", "shift_jis", "UTF-8", "iso-8859-15", "utf-7", "hz"):  # charsets in which a line end and the field syntax (name, colon, blank) stand for themselves; in the last two some ASCII characters ('+', '~') do not
+        for charset in (None, "utf-8", "gbk", "latin-1", "big5", "shift_jis", "UTF-8", "iso-8859-15", "utf-7", "hz", "gb18030", "cp949", "cp1258"):  # charsets in which a line end and the field syntax (name, colon, blank) stand for themselves; in the last two some ASCII characters ('+', '~') do not
             for k in range(1, len(CHARSET_EVENTS) + 1):
                 for combo in itertools.combinations(CHARSET_EVENTS, k):
                     events = [dict(e) for e in combo]
@@ -208,6 +210,32 @@ def charset_responses(r):
             p = judge_stream(events, res.body, "utf-8")
             if p:
                 r.violation("bigevent:" + p[0], w, f"{iface} SendEventResponse over an event of {sum(len(v) for v in ev.values())} characters: {p[1][:300]}")
+    # one response object answering one client after the other (its source can be iterated again): every client gets every event
+    for iface in ("wsgi", "asgi"):
+        mod = __import__("baize.wsgi" if iface == "wsgi" else "baize.asgi", fromlist=["SendEventResponse"])
+        for events in ([{"data": "one"}, {"event": "e", "data": "two"}, {"id": "3", "data": "three"}], [{"data": "only"}], []):
+            class Source:
+                def __iter__(self):
+                    return (dict(e) for e in events)
+
+                def __aiter__(self):
+                    async def gen():
+                        for e in events:
+                            yield dict(e)
+                    return gen()
+            resp = mod.SendEventResponse(Source(), ping_interval=30)
+            for k in range(4):
+                r.count("evaluations")
+                r.count("traces")
+                w = {"kind": "charset", "iface": iface, "charset": None, "events": events, "reused": k}
+                res = SV.run_wsgi(resp, SV.to_environ(SV.AReq())) if iface == "wsgi" else SV.run_asgi(resp, SV.to_scope(SV.AReq()), SV.to_messages(SV.AReq()))
+                if res.exc is not None or res.problems:
+                    r.violation("reused:failed", w, f"{iface} one SendEventResponse object, client {k}: {res.exc!r} {res.problems[:1]}")
+                    break
+                p = judge_stream(events, res.body, "utf-8")
+                if p:
+                    r.violation("reused:" + p[0], w, f"{iface} one SendEventResponse object answering one client after the other, client {k}: {p[1][:300]}")
+                    break
     r.sample({"charset": "gbk", "events": CHARSET_EVENTS[:2]})
 
 
